@@ -18,6 +18,7 @@ import Pamiq.Model.GymDriver
 import Pamiq.Model.QueueDriver
 import Pamiq.Model.TorchSyncDriver
 import Pamiq.Model.PersistDriver
+import Pamiq.Model.SysDataDriver
 open Pamiq
 
 structure DState where
@@ -46,6 +47,8 @@ structure DState where
   torchsync : TorchSync.DSt := none
   -- C05/C10 (Persist)
   persist : Persist.DSt := {}
+  -- C04 data layer (SysData)
+  sysdata : SysData.DSt := {}
 
 def handle (st : DState) (line : String) : DState × String :=
   match (line.trimAscii.toString.splitOn " ").filter (· ≠ "") with
@@ -106,6 +109,9 @@ def handle (st : DState) (line : String) : DState × String :=
   | "persist" :: rest =>
     let (p, out) := Persist.drive st.persist rest
     ({ st with persist := p }, out)
+  | "sysdata" :: rest =>
+    let (p, out) := SysData.drive st.sysdata rest
+    ({ st with sysdata := p }, out)
   | _ => (st, "bad-op")
 
 partial def loop (h : IO.FS.Stream) (out : IO.FS.Stream) (st : DState) : IO Unit := do
